@@ -27,6 +27,8 @@ FAMILIES = {
                    starts=[MON, 1798761600, 1798761600 - 3 * 86400, 1609113600, 1735516800, 1736035200, MON + 13 * 3600], G=[3600, 3600, 1800, 900]),
     "deps": dict(nest=0.6, depth=3, dep=0.8, precedes=0.3, rel=0.5, contdep=0.5, contstart=0.3, onstart=0.25, pin=0.15,
                  gap=[0, 60, 120, 480, 1440, 90, 30], ntasks=(3, 9), hours=0.2),
+    "coredeps": dict(nest=0.6, depth=3, dep=0.8, precedes=0.3, rel=0.5, contdep=0.5, contstart=0.3, onstart=0.25, pin=0.15,
+                     gap=[0, 60, 120, 480, 1440], ntasks=(3, 9), rdaily=0.2, team=0.2, G=[3600, 3600, 1800]),
     "alap": dict(alap=1.0, nest=0.4, dep=0.7, gap=[0, 0, 60, 120, 480], onstart=0.0, precedes=0.1, pin=0.0, milestone=0.0,
                  efforts=[60, 120, 240, 480, 90, 45], effs=["1.0", "1.0", "0.5", "2.0"], contdep=0.2, ntasks=(2, 6)),
     "taskalap": dict(taskalap=0.5, dep=0.4, onstart=0.0, pin=0.0, efforts=[60, 120, 240, 90], ntasks=(1, 5), milestone=0.0),
@@ -261,9 +263,6 @@ def gen(rng, cfg):
                 n["sched"] = "alap"
                 n["end"] = day0 + rng.randint(5, 12) * 86400 + rng.choice([12, 17]) * 3600
     if cfg.get("unsched"):
-        for p, n in leaves_t:
-            if "effort" in n and rng.random() < cfg["unsched"] * 0.4:
-                n["effort"] = 60 * 24 * 60          # does not fit any horizon extension? (it does: horizon grows) -> use a never-working resource
         # a resource that never works makes its tasks unschedulable
         if rng.random() < cfg["unsched"]:
             ap["resources"].append({"id": "idle", "eff": "1.0", "leaves": [(day0, day0 + 500 * 86400, "annual")]})
@@ -272,3 +271,35 @@ def gen(rng, cfg):
                     n["alloc"] = ["idle"]
                     n.pop("alt", None)
     return ap
+
+
+def small_universe(ctx, sample=None):
+    """every project of a small bounded universe (C07): 3 leaf tasks, 2 resources, efforts of 1 or 2 slots,
+    every dependency subset, two priorities, an optional daily limit and an optional leave"""
+    import itertools
+    out = []
+    edges = [(0, 1), (0, 2), (1, 2)]
+    combos = itertools.product(itertools.product((60, 120), repeat=3), itertools.product((0, 1), repeat=3),
+                               itertools.product((None, 800), repeat=3), itertools.product((0, 1), repeat=3),
+                               (None, 60), (False, True))
+    combos = list(combos)
+    if sample is not None:
+        combos = ctx.rng.sample(combos, min(sample, len(combos)))
+    for i, (eff, dep, prio, alloc, lim, leave) in enumerate(combos):
+        ap = {"start": MON, "dur": ("w", 2), "G": 3600, "tz": "Etc/UTC", "vac": [], "gleaves": [], "shifts": {},
+              "resources": [{"id": "r0", "eff": "1.0", "leaves": []}, {"id": "r1", "eff": "1.0", "leaves": []}], "tasks": [],
+              "_family": "universe", "_i": i}
+        if lim:
+            ap["resources"][0]["dailymax"] = lim
+        if leave:
+            ap["resources"][0]["leaves"].append((MON, None, "annual"))
+        for t in range(3):
+            n = {"id": f"t{t}", "effort": eff[t], "alloc": [f"r{alloc[t]}"]}
+            if prio[t]:
+                n["prio"] = prio[t]
+            ds = [{"to": [f"t{a}"], "style": "abs"} for k, (a, b) in enumerate(edges) if b == t and dep[k]]
+            if ds:
+                n["deps"] = ds
+            ap["tasks"].append(n)
+        out.append(ap)
+    return out
